@@ -65,15 +65,37 @@ def gen_program(rng):
     return clauses, 't', [V('Q%d' % i) for i in range(len(vars_))]
 
 
+_HIDDEN = [0]
+
+
 def make_pypred(real, yp, name, arity, rows, style, yv, log, fault):
     E = real.E
     unify = E.unify
+
+    # some predicates do not unify themselves but delegate to a query on the same engine (re-entrant use of the
+    # engine from inside a Python predicate): the rows live as facts under a name the program does not know
+    delegate = (fault.get('kind_seed', 0) + len(rows) + arity) % 4 == 0
+    _HIDDEN[0] += 1
+    hidden = 'ypv_hidden_%s_%d_%d' % (name, arity, _HIDDEN[0])     # (a new name per registration)
+    if delegate:
+        log_kinds0 = fault.setdefault('kinds', {})
+        log_kinds0['delegating'] = log_kinds0.get('delegating', 0) + 1
+        for row in rows:
+            vmap0 = {}
+            yp.assert_fact(yp.atom(hidden), [build_real(yp, t, vmap0) for t in row])
 
     def body(args):
         log.append((name, snap_real(E, list(args))))
         fault['events'] += 1
         if fault['events'] == fault['at']:
             raise fault['exc']
+        if delegate:
+            for _ in yp.query(hidden, list(args)):
+                yield yv
+                fault['events'] += 1
+                if fault['events'] == fault['at']:
+                    raise fault['exc']
+            return
         for row in rows:
             vmap = {}
             terms = [build_real(yp, t, vmap) for t in row]
